@@ -555,6 +555,9 @@ def part_eq(ctx, cfg):
             if code != exact:
                 # the code compares after rounding the stored number to the comparand's float type (theorems C18_eq_f64 / C18_eq_f32)
                 ctx.count('eq:%s true although the stored number differs from the comparand (rounding of the stored number)' % ty)
+                # literal reading of C18 ("true exactly when the Value holds that value"): known finding F15
+                if not any(x.get('what') == 'eq-float-comparand-compared-after-rounding' for x in ctx.violations):
+                    ctx.violations.append(dict(viol('eq-float-comparand-compared-after-rounding', ln, 'false: the stored number is not exactly the comparand', a), shrinkable=False))
     ctx.sample({'op': 'eq', 'line': 'eq u9007199254740993 f64 4340000000000000', 'note': 'true: PosInt is compared after `as f64`'})
 
 # ---- json!
